@@ -180,56 +180,71 @@ Fixpoint find_nonfalse (s : st) (rest : list Z) (k : nat) : option nat :=
 Definition remove_swap_last (ws : list nat) (i : nat) : list nat :=
   removelast (upd ws i (last ws 0%nat)).
 
-(* the `while i < len(watches)` loop of propagate for one false literal *)
+(* one iteration of the `while i < len(watches)` loop of propagate for the false literal fl:
+   WDone = loop condition false; WNext = `i += 1`; WStay = `continue` after the watch was moved; WConf = `return clause_idx` *)
+Inductive wstep := WDone | WNext (s : st) | WStay (s : st) | WConf (s : st) (ci : nat).
+
+Definition watch_step (fl : Z) (i : nat) (s : st) : wstep :=
+  let ws := watch_list s fl in
+  if (i <? length ws)%nat then
+    let ci := nth i ws 0%nat in
+    let c := get_clause s ci in
+    if (length c =? 1)%nat then WConf (bump_confl s) ci
+    else
+      let c1 := if nth 0%nat c 0 =? fl then swap01 c else c in
+      let s1 := if nth 0%nat c 0 =? fl then set_clause s ci c1 else s in
+      let first_val := lit_value s1 (nth 0%nat c1 0) in
+      if is_true first_val then WNext s1
+      else
+        match find_nonfalse s1 (skipn 2 c1) 2 with
+        | Some k =>
+            let c2 := swap1k c1 k in
+            let s2 := set_clause s1 ci c2 in
+            let s3 := set_watch_list s2 fl (remove_swap_last ws i) in
+            WStay (add_watch (nth 1%nat c2 0) ci s3)
+        | None =>
+            if is_false first_val then WConf (bump_confl s1) ci
+            else WNext (assign_lit (nth 0%nat c1 0) (Some ci) s1)
+        end
+  else WDone.
+
 Fixpoint prop_watch (fuel : nat) (fl : Z) (i : nat) (s : st) : option (st * option nat) :=
   match fuel with
   | O => None
   | S f =>
-      let ws := watch_list s fl in
-      if (i <? length ws)%nat then
-        let ci := nth i ws 0%nat in
-        let c := get_clause s ci in
-        if (length c =? 1)%nat then Some (bump_confl s, Some ci)
-        else
-          let c1 := if nth 0%nat c 0 =? fl then swap01 c else c in
-          let s1 := if nth 0%nat c 0 =? fl then set_clause s ci c1 else s in
-          let first_val := lit_value s1 (nth 0%nat c1 0) in
-          if is_true first_val then prop_watch f fl (S i) s1
-          else
-            match find_nonfalse s1 (skipn 2 c1) 2 with
-            | Some k =>
-                let c2 := swap1k c1 k in
-                let s2 := set_clause s1 ci c2 in
-                let s3 := set_watch_list s2 fl (remove_swap_last ws i) in
-                let s4 := add_watch (nth 1%nat c2 0) ci s3 in
-                prop_watch f fl i s4
-            | None =>
-                if is_false first_val then Some (bump_confl s1, Some ci)
-                else prop_watch f fl (S i) (assign_lit (nth 0%nat c1 0) (Some ci) s1)
-            end
-      else Some (s, None)
+      match watch_step fl i s with
+      | WDone => Some (s, None)
+      | WNext s' => prop_watch f fl (S i) s'
+      | WStay s' => prop_watch f fl i s'
+      | WConf s' ci => Some (s', Some ci)
+      end
   end.
 
 (* trail[i] in Python order *)
 Definition trail_at (s : st) (i : nat) : nat := nth (length (s_trail s) - 1 - i) (s_trail s) 0%nat.
 
-(* the `while prop_head < len(trail)` loop *)
-Fixpoint prop_loop (fuel : nat) (s : st) : option (st * confl) :=
+(* false_lit = var if vals[var] == 0 else -var *)
+Definition false_lit_of (s : st) (v : nat) : Z := match val_of s v with Some false => zvar v | _ => - zvar v end.
+
+(* one iteration of the `while prop_head < len(trail)` loop; `inner` = fuel of the watch loop *)
+Definition head_step (inner : nat) (s : st) : option (st * option nat) :=
+  let v := trail_at s (s_head s) in
+  let s1 := set_head s (S (s_head s)) in
+  let fl := false_lit_of s1 v in
+  match prop_bin (implications s1 fl) s1 with
+  | (s2, Some ci) => Some (s2, Some ci)
+  | (s2, None) => prop_watch inner fl 0%nat s2
+  end.
+
+Fixpoint prop_loop (fuel : nat) (inner : nat) (s : st) : option (st * confl) :=
   match fuel with
   | O => None
   | S f =>
       if (s_head s <? length (s_trail s))%nat then
-        let v := trail_at s (s_head s) in
-        let s1 := set_head s (S (s_head s)) in
-        let fl := match val_of s1 v with Some false => zvar v | _ => - zvar v end in
-        match prop_bin (implications s1 fl) s1 with
-        | (s2, Some ci) => Some (s2, CAt ci)
-        | (s2, None) =>
-            match prop_watch fuel fl 0%nat s2 with
-            | None => None
-            | Some (s3, Some ci) => Some (s3, CAt ci)
-            | Some (s3, None) => prop_loop f s3
-            end
+        match head_step inner s with
+        | None => None
+        | Some (s', Some ci) => Some (s', CAt ci)
+        | Some (s', None) => prop_loop f inner s'
         end
       else Some (s, CNone)
   end.
@@ -238,9 +253,9 @@ Definition propagate (fuel : nat) (A : list Z) (s : st) : option (st * confl) :=
   if (cur_level s =? 0)%nat then
     match prop_assums A s with
     | (s1, true) => Some (s1, CAssum)
-    | (s1, false) => prop_loop fuel s1
+    | (s1, false) => prop_loop fuel fuel s1
     end
-  else prop_loop fuel s.
+  else prop_loop fuel fuel s.
 
 (* ---------------------------------------------------------------- analyze *)
 Definition is_none {X} (o : option X) : bool := match o with None => true | _ => false end.
@@ -267,7 +282,7 @@ Fixpoint an_loop (s : st) (cur : nat) (tr : list nat) (acc : list bool * list Z 
           if negb (nth v seen false) then an_loop s cur tr' acc
           else if (level_of s v =? cur)%nat then
             match cnt' with
-            | O => (match val_of s v with Some false => zvar v | _ => - zvar v end) :: ll
+            | O => false_lit_of s v :: ll
             | S _ =>
                 match reason_of s v with
                 | Some r =>
@@ -597,39 +612,53 @@ Fixpoint main_loop (fuel : nat) (inner : nat) (P : params) (L : loop) : outcome 
 (* ---------------------------------------------------------------- solve_sat *)
 Definition is_nilb {X} (l : list X) : bool := match l with [] => true | _ => false end.
 
-Definition solve_sat (fuel : nat) (cls : cnf) (A : list Z) (max_conflicts max_restarts limit luby_factor : Z)
-                     (oracle : list nat) : outcome :=
+(* everything before `while True:`; IDone = one of the early returns *)
+Inductive init_res := IDone (o : outcome) | ILoop (P : params) (L : loop).
+
+Definition init_loop (fuel : nat) (cls : cnf) (A : list Z) (max_conflicts max_restarts limit luby_factor : Z)
+                     (oracle : list nat) : init_res :=
   match cls with
-  | [] => Done [] (mkDres OPTIMAL (Some []) 0 0 0 None)
+  | [] => IDone (Done [] (mkDres OPTIMAL (Some []) 0 0 0 None))
   | _ =>
       let n := n_vars_of cls in
-      if (n =? 0)%nat then Done [DEv (EVerdict OPTIMAL)] (mkDres OPTIMAL (Some []) 0 0 0 None)
-      else if existsb is_nilb cls then Done [DEv (EVerdict INFEASIBLE)] (mkDres INFEASIBLE None 0 0 0 None)
+      if (n =? 0)%nat then IDone (Done [DEv (EVerdict OPTIMAL)] (mkDres OPTIMAL (Some []) 0 0 0 None))
+      else if existsb is_nilb cls then IDone (Done [DEv (EVerdict INFEASIBLE)] (mkDres INFEASIBLE None 0 0 0 None))
       else
         let '(s0, units) := attach_orig cls 0%nat [] (init_state cls n) in
         let s1 := if limit <=? 1 then assign_pures A (find_pure_literals cls n) s0 else s0 in
         match assign_units units s1 with
-        | (_, true) => Done [DEv (EVerdict INFEASIBLE)] (mkDres INFEASIBLE None 0 0 0 None)
+        | (_, true) => IDone (Done [DEv (EVerdict INFEASIBLE)] (mkDres INFEASIBLE None 0 0 0 None))
         | (s2, false) =>
             let pure := flat_map (fun v => match reason_of s2 v with
                                            | None => [match val_of s2 v with Some true => zvar v | _ => - zvar v end]
                                            | Some _ => [] end) (rev (s_trail s2)) in
             let ev0 := DEv (EInit (Z.of_nat n) pure (map fst units) A) in
             match propagate fuel A s2 with
-            | None => Err EFuel [ev0]
+            | None => IDone (Err EFuel [ev0])
             | Some (s3, CAt _) =>
-                Done [ev0; DEv (EVerdict INFEASIBLE)] (mkDres INFEASIBLE None 0 0 (s_props s3) None)
+                IDone (Done [ev0; DEv (EVerdict INFEASIBLE)] (mkDres INFEASIBLE None 0 0 (s_props s3) None))
             | Some (s3, c) =>
                 match luby_val 1 with
-                | None => Err ELuby [ev0]
+                | None => IDone (Err ELuby [ev0])
                 | Some lv =>
-                    let P := mkParams A max_conflicts max_restarts limit luby_factor n in
-                    main_loop fuel fuel P
-                      (mkLoop s3 c 0%nat 0 1 (luby_factor * lv) 0 0 [] [ev0] oracle)
+                    ILoop (mkParams A max_conflicts max_restarts limit luby_factor n)
+                          (mkLoop s3 c 0%nat 0 1 (luby_factor * lv) 0 0 [] [ev0] oracle)
                 end
             end
         end
   end.
+
+Definition solve_sat (fuel : nat) (cls : cnf) (A : list Z) (max_conflicts max_restarts limit luby_factor : Z)
+                     (oracle : list nat) : outcome :=
+  match init_loop fuel cls A max_conflicts max_restarts limit luby_factor oracle with
+  | IDone o => o
+  | ILoop P L => main_loop fuel fuel P L
+  end.
+
+(* the loop states a run goes through (for the invariants of Props/C01_deep.v) *)
+Inductive reach (fuel : nat) (P : params) (L0 : loop) : loop -> Prop :=
+| reach_init : reach fuel P L0 L0
+| reach_step : forall L L', reach fuel P L0 L -> main_step fuel P L = Cont L' -> reach fuel P L0 L'.
 
 (* ---------------------------------------------------------------- comparison with the implementation *)
 Fixpoint decisions_of (evs : list devent) : list nat :=
